@@ -6,15 +6,19 @@ NA = {
     "C24": "SIGSEGV/SIGBUS trap handler rewriting a real signal context to corosensei's trap entry; no encoding",
     "C27": "io_uring feature is not built in the pinned configuration and its behaviour is the kernel completion queue; no model available",
 }
-_UNFINISHED = "solver-based harness (Kani/CBMC) %s; not claimed until its quick check runs green end-to-end on the unchanged tree (DESIGN.md \u00a77)"
+_QUEUE = ("solver harnesses exist (kani/harness/%s) but do not produce a verdict: one push + pop pair on the priority queue "
+          "(OrderedLocalQueue over the skip-list / st3 / injector models) is 1.2 M program steps and ran CBMC out of memory at 40 GB, "
+          "even with 2-entry model containers, concrete operation counts and unwind 4 (DESIGN 8.2). %s")
 NA.update({
-    "C03": _UNFINISHED % "for the one-pre-emption race on the shared queues exists but was not re-validated end-to-end in this round",
-    "C06": _UNFINISHED % "for the tick window / shared-first step exists but was not re-validated end-to-end in this round",
-    "C07": _UNFINISHED % "for the single-transition steps exists but was not re-validated end-to-end in this round",
-    "C09": _UNFINISHED % "for scripted coroutines exists but was not re-validated end-to-end in this round",
-    "C19": _UNFINISHED % "exists but is not sound yet: an un-stubbed getsockopt FFI call fails the 3-operation harness and the 2-operation harness does not finish in 600 s; the repeated-setsockopt assert it reports has not been replayed natively",
-    "C21": _UNFINISHED % "exists; two of three harnesses verify, the two-event-loop harness reports a counterexample that has no native replayer yet, so it is neither a verdict nor a finding",
-    "C26": _UNFINISHED % "for two racing first lookups exceeds the memory cap without a verdict",
+    "C02": _QUEUE % ("c02_join.rs", "A genuine defect was nevertheless shown natively and is documented: join() on a task that another event loop's pool ran never sees the result (ocv-replay join_cross_loop 8)."),
+    "C04": _QUEUE % ("c04_ows.rs", "A genuine defect was shown natively and is documented: push_to_global spins forever after sibling steals (ocv-replay ows_history 2 p0:0 p0:0 o1 p0:0 p0:0 o1 p0:0)."),
+    "C05": _QUEUE % ("c05_order.rs", "Nothing is known to fail for this property."),
+    "C06": _QUEUE % ("c04_ows.rs / c06_ws.rs", "A genuine defect was shown natively and is documented: an idle ordered local queue whose items a sibling stole reports empty while the sibling still holds work (ocv-replay ows_history 4 ...)."),
+    "C10": "needs Scheduler::do_schedule (std HashMap/BinaryHeap, the ordered ready queue and real resumptions per pass); the ready-queue operation alone exceeds the memory available to CBMC (see C04), so no harness was built",
+    "C11": _QUEUE % ("c02_join.rs", "The listener step (CoroutineCreator::on_state_changed from an arbitrary running count) is decided, but on its own it does not decide the property (a worker dropped by the scheduler's pending-cancel branch never reaches the listener), so it is not claimed."),
+    "C13": _QUEUE % ("c02_join.rs", "A genuine defect was shown natively and is documented: the waiter of a task cancelled before it starts sleeps its whole timeout (ocv-replay pool_cancel 1)."),
 })
-for _p in ["C02", "C04", "C05", "C08", "C10", "C11", "C12", "C13", "C23"]:
-    NA.setdefault(_p, "no solver harness built: needs the queue/scheduler/pool encodings planned in DESIGN.md \u00a73, whose probes (about 6 M SAT variables per ordered-queue operation) put them beyond the time available; not claimed")
+NA.update({
+    "C12": "harnesses exist (lifecycle one-way, rejected submissions, waiters settled on stop - the last one found the do_clean self-deadlock repaired in 22fd983); not claimed until its quick check has run green end-to-end from the committed tree",
+    "C23": "harnesses exist (coroutine and thread growth paths, non-unwinding half); the coroutine-path harness has not produced a verdict yet, not claimed until it runs green",
+})
